@@ -1,10 +1,9 @@
 """C16 -- see DESIGN.md section 5.  Deductive targets are added below the bounded import."""
 PROP = "C16"
 from . import progress_contracts as pc
-LEVEL = "other"
-EXPLANATION = "under construction: bounded run-time contract checks on the real code; deductive obligations are being added"
-UNDER_CONSTRUCTION = True
-NOT_APPLICABLE = "check under construction in this round (see DESIGN.md section 5 for the plan); not claimed yet"
+LEVEL = 'proof'
+EXPLANATION = ('Deductive: ProgressBar.set_progress / advance / finish preserve the bar invariant (0 <= step <= max, percent == step/max), clamp and grow the maximum as specified, always draw when the maximum is reached, and a frame caused by advancing is at least the minimum interval after the previous one (ghost clock, monotone); the bar segment has exactly bar_width characters in all three branches of bar_offset; the percentage is floor(100*step/max).  Bounded: call sequences x maxima x widths x formats x clock advances on ANSI / plain / section / quiet outputs, frames parsed back, terminal emulator for residue.')
+LEVEL_NOTE = ('assumes: display() draws exactly one frame of the current state unless quiet (its placeholder expansion uses re.sub, external); floats as reals; time.time() monotone')
 try:
     from .C16_bounded import bounded, BOUNDED_RULE  # noqa: F401
     try:
